@@ -180,7 +180,7 @@ def r1_optional_fields(R) -> None:
         tv = per_field['type']
         ok = is_call(tv, 'Type') and len(tv.args) == 1 and own(tv.args[0], 'type')
     R.check(ok, q, 'type-restored', 'the type column is converted back to the Type enum', "`entry['type'] = Type(entry['type'])` not found", where=fi.where)
-    ok = any(is_call(x, 'Symbol') and has_star_kwargs(x, 'entry') for x in ast.walk(fi.node))
+    ok = any(is_call(x, 'Symbol') and any(k_.arg is None and isinstance(k_.value, ast.Name) for k_ in x.keywords) for x in ast.walk(fi.node))
     R.check(ok, q, 'symbol-built', 'each row becomes Symbol(**entry)', 'rows are not rebuilt with Symbol(**entry)', where=fi.where)
     # export: one dict per symbol, in order
     sq = f'{T}.symbols_to_dataframe'
@@ -393,7 +393,9 @@ def r4_from_dataframe(R) -> None:
     if not R.require(q, len(rets), 'return cls(index, *args, **columns, **kwargs)', fi=f.fi, pred=lambda x: isinstance(x, ast.Return)):
         return
     c = rets[0].ast.value
-    ok = is_call(c, 'cls') and c.args and text(c.args[0]) == 'index' and has_star_args(c, 'args') and has_star_kwargs(c, 'kwargs')
+    # the local that holds the span: by role (the first argument of the constructor call), whatever it is called
+    IX = text(c.args[0]) if is_call(c, 'cls') and c.args and isinstance(c.args[0], ast.Name) else 'index'
+    ok = is_call(c, 'cls') and c.args and text(c.args[0]) == IX and has_star_args(c, 'args') and has_star_kwargs(c, 'kwargs')
     R.check(ok, q, 'ctor-call:' + text(c)[:60], 'the model is built from the index and the columns', f'`{text(c)[:70]}`', where=f.where(rets[0]))
     # the columns: a dict comprehension in the call, or a local that holds one (read through)
     dcs = []
@@ -411,14 +413,14 @@ def r4_from_dataframe(R) -> None:
     rebinds = f.assigns_to('data')
     R.check(not rebinds, q, 'frame-as-given:' + (text(rebinds[0].ast)[:50] if rebinds else ''), 'span and values are taken from the frame as given',
             f'`{text(rebinds[0].ast)[:60] if rebinds else ""}` re-binds the frame before use: rows (periods) may be re-ordered or dropped', where=f.fi.where)
-    ds = f.assigns_to('index')
+    ds = f.assigns_to(IX)
     first = [d for d in ds if text(d.ast.value) == 'data.index']
-    conv = [d for d in ds if text(d.ast.value) == 'list(index)']
+    conv = [d for d in ds if text(d.ast.value) == f'list({IX})']
     ok = len(first) == 1 and len(conv) == 1
     if ok:
         g = [(text(a), truth) for (a, truth, _t) in f.guard_atoms(conv[0].id)]
-        ok = any('isinstance(index, (DatetimeIndex, MultiIndex, PeriodIndex, TimedeltaIndex))' in a and not truth for (a, truth) in g) or \
-            any('not isinstance(index, (DatetimeIndex, MultiIndex, PeriodIndex, TimedeltaIndex))' in a and truth for (a, truth) in g)
+        ok = any(f'isinstance({IX}, (DatetimeIndex, MultiIndex, PeriodIndex, TimedeltaIndex))' in a and not truth for (a, truth) in g) or \
+            any(f'not isinstance({IX}, (DatetimeIndex, MultiIndex, PeriodIndex, TimedeltaIndex))' in a and truth for (a, truth) in g)
     R.check(ok, q, 'span-from-index', "the span is the frame's index (kept for pandas time/multi indexes, else list(index))",
             'the span is not derived from data.index as documented', where=f.fi.where)
 
